@@ -103,14 +103,24 @@ def name_index(name: str):
     return int(m.group(1)) if m else name
 
 
+class MalformedResult(Exception):
+    """a polynomial handed back by the implementation cannot even be read (its keys name fields that do not exist, ...):
+    a failure of the implementation, never of the harness; check.py reports it as a violation"""
+
+
 def poly_to_struct(p) -> dict:
     """Implementation polynomial -> representation record (exact coefficients)."""
     p = numpoly.aspolynomial(p) if not isinstance(p, numpoly.ndpoly) else p
-    expos = numpy.asarray(p.exponents).tolist()
-    terms = []
-    for e, key in zip(expos, p.keys):
-        col = numpy.asarray(p.values[str(key)]).ravel()
-        terms.append([[int(x) for x in e], [coef_json(to_exact(v)) for v in col]])
+    try:
+        expos = numpy.asarray(p.exponents).tolist()
+        terms = []
+        for e, key in zip(expos, p.keys):
+            col = numpy.asarray(p.values[str(key)]).ravel()
+            terms.append([[int(x) for x in e], [coef_json(to_exact(v)) for v in col]])
+    except (ValueError, KeyError, IndexError, TypeError) as err:
+        raise MalformedResult(f"polynomial with keys {[str(k) for k in numpy.asarray(p.keys).ravel()][:8]} and fields "
+                              f"{list(numpy.ndarray.view(p, numpy.ndarray).dtype.names or ())[:8]} cannot be read: "
+                              f"{type(err).__name__}: {err}") from err
     return {"names": [name_index(n) for n in p.names], "shape": [int(s) for s in p.shape],
             "dtype": str(p.dtype), "terms": terms}
 
